@@ -26,6 +26,10 @@ EXPLANATION = (
     "m >= 1; plus the shared interval generator's non-emptiness (C07.b) and the wiring between detector, driver and formatter. "
     "NOT decided: the greedy loop's invariant, the real-arithmetic part of the seeded-interval grid."
 )
+# obligations added during the build phase (seeding rounds, twins, mutation analysis)
+ADDED_IN_BUILD = ' Also: generator arguments bound by name (none left to a default); loop bounds with min / max and negated extrema are split into affine cases.'
+EXPLANATION = EXPLANATION + ADDED_IN_BUILD
+
 ASSUMPTIONS = [
     "Python's ast module and evaluation-order/argument-binding semantics as implemented in skverif/symex.py",
     "library model table skverif/models.py",
